@@ -4,6 +4,12 @@ History monitor over recorded calls on the same configured object (bit-exact com
   c05.prefix    h(x)[:k] == h(x[:k] + y)[:k]          for tails y (all-zero, all-u, random) with k+len(y) <= N
   c05.truncate  h(x[:k])[:k-1] == h(x)[:k-1]  and  h(x[:k])[k-1] <= h(x)[k-1]
   c05.estim     estim(x)[j] == estim(x')[j], bet(x)[j] == bet(x')[j] for x' differing from x only at positions >= j
+  c05.increment for tests whose alternative is not exposed (and all others): with the first k draws fixed, the factor by
+                which the statistic grows on draw k+1, T_{k+1}/T_k = h[k-1]/h[k], is read from histories on
+                x[:k]+[v], v in {0, u/2, u}.  Every shipped statistic multiplies by a factor that is affine in the current
+                observation with coefficients fixed by the earlier draws (the alternative / bet); a coefficient that
+                looks at the current draw makes the three factors non-collinear.  Only entries strictly inside (0,1) are
+                used (clamped or boundary entries carry no information).
 """
 import math
 import random
@@ -16,7 +22,8 @@ RULE = ("(configuration, sample x, cut k, replacement tail y) tuples, stratified
         "bets, finite and infinite N, k in {1, n-1, random}; non-trivial = x is non-constant and the tail differs from "
         "the original tail; distinct = hash of the tuple")
 REQUIRED = [f"prefix_checked:{nn.label({'test': a, 'estim': b, 'bet': c})}" for a, b, c in nn.COMBOS] + \
-           ["truncate_checked", "estim_checked", "bet_checked", "k_is_1", "k_is_n_minus_1", "truncation_lowered_kth"]
+           ["truncate_checked", "estim_checked", "bet_checked", "k_is_1", "k_is_n_minus_1", "truncation_lowered_kth"] + \
+           [f"increment_affine_checked:{t}" for t in sorted({c[0] for c in nn.COMBOS})]
 ASSUMPTIONS = ["numpy's cumulative kernels are sequential, so prefix-stability is checked with bit equality",
                "both samples continue beyond the cut (the property's own hypothesis)"]
 N_CASES = {"quick": 160000, "thorough": 1500000}
@@ -101,6 +108,26 @@ def run_case(case, rec):
             if not (math.isfinite(N) and tot > N * cfg["t"]):
                 rec.violation("c05.truncate", f"{lab}:kth_lowered_without_total_exceeding",
                               {"k": k, "h_cut_k": hc[k - 1], "h_x_k": h[k - 1], "sum": tot, "N_t": N * cfg["t"]})
+        # growth factor on draw k+1 is affine in that draw, its coefficients fixed by draws 1..k
+        if k + 1 <= (nn.cfgN(cfg) if math.isfinite(nn.cfgN(cfg)) else k + 1):
+            u = cfg["u"]
+            hs = []
+            for v in (0.0, u / 2, u):
+                xv = x[:k] + [v]
+                if not nn.in_domain(cfg, xv):
+                    break
+                okv, rv = rec.guard(f"c05.call:{lab}", obj.test, nn.to_array(xv, cfg))
+                if not okv:
+                    break
+                hs.append(np.asarray(rv[1], dtype=float))
+            if len(hs) == 3 and all(len(a) == k + 1 for a in hs) and all(0 < a[k - 1] < 1 and 0 < a[k] < 1 for a in hs) \
+                    and same(hs[0][:k], hs[1][:k]) and same(hs[0][:k], hs[2][:k]):
+                r0, r1, r2 = (float(a[k - 1] / a[k]) for a in hs)
+                rec.count(f"increment_affine_checked:{cfg['test']}")
+                if abs(r1 - (r0 + r2) / 2) > 1e-9 * max(abs(r0), abs(r1), abs(r2)):
+                    rec.violation("c05.increment", f"{lab}:growth_factor_coefficients_depend_on_current_draw",
+                                  {"k": k, "prefix": x[:k], "factor_at_0": r0, "factor_at_u/2": r1, "factor_at_u": r2,
+                                   "second_difference": r0 + r2 - 2 * r1})
         # estimator / bet: entry j unaffected by any change at positions >= j
         for which in ("estim", "bet"):
             name = cfg.get(which)
